@@ -16,6 +16,23 @@ NOFLOW = "nosuchflow xyz"
 P_UNTERMINATED = r"Sheet has unterminated block"
 P_WRONG = r"Wrong block terminator"
 P_BLOCK = P_UNTERMINATED + "|" + P_WRONG
+# a shifted block boundary may first surface as one of its consequences: an edge from the id of a
+# block that is no longer closed, or a loop variable used after the loop was closed early
+P_BLOCK_LOOSE = P_BLOCK + r'|Edge from row_id "[^"]*" which does not exist|is undefined'
+
+
+def open_stack_at(rows, p):
+    """kinds of the blocks open before position p (innermost last)"""
+    st = []
+    for r in rows[:p]:
+        t = r.get("type")
+        if t == "begin_for":
+            st.append("for")
+        elif t == "begin_block":
+            st.append("block")
+        elif t in ("end_for", "end_block") and st:
+            st.pop()
+    return st
 
 NODE_TYPES_FOR_EDGE = {"send_message", "wait_for_response", "save_value"}
 
@@ -32,7 +49,15 @@ def flow_sheets(wb, a):
 def _with_rows(wb, name, rows):
     w = wb_copy(wb)
     w["sheets"][name]["rows"] = [dict(r) for r in rows]
+    _fit_headers(w["sheets"][name])
     return w
+
+
+def _fit_headers(sh):
+    for r in sh["rows"]:
+        for k in r:
+            if k not in sh["h"]:
+                sh["h"].append(k)
 
 
 def _insert(rows, p, new):
@@ -75,11 +100,11 @@ def unterminated(wb, a):
                 if kind == "begin_for":
                     new.update({"loop_variable": "zz", "message_text": "1;2"})
                 yield ({"sheet": n, "pos": p, "how": "insert " + kind, "depth": d},
-                       _with_rows(wb, n, _insert(rows, p, [new])), P_UNTERMINATED if d == 0 and _closed_after(rows, p) else P_BLOCK)
+                       _with_rows(wb, n, _insert(rows, p, [new])), P_UNTERMINATED if d == 0 and _closed_after(rows, p) else P_BLOCK_LOOSE)
         for i, r in enumerate(rows):
             if r.get("type") in ("end_for", "end_block"):
                 yield ({"sheet": n, "pos": i, "how": "delete " + r["type"], "depth": st[i]["depth"]},
-                       _with_rows(wb, n, rows[:i] + rows[i + 1:]), P_UNTERMINATED if st[i]["depth"] == 1 else P_BLOCK)
+                       _with_rows(wb, n, rows[:i] + rows[i + 1:]), P_BLOCK_LOOSE)
 
 
 def _closed_after(rows, p):
@@ -106,8 +131,10 @@ def mismatched(wb, a):
                 yield ({"sheet": n, "pos": i, "how": "swap " + r["type"]}, _with_rows(wb, n, rr), P_WRONG)
         for p, d in insert_positions(rows, st, need_eval=False):
             for kind in ("end_for", "end_block"):
+                stack = open_stack_at(rows, p)
+                closes = bool(stack) and stack[-1] == kind[4:]
                 yield ({"sheet": n, "pos": p, "how": "stray " + kind, "depth": d},
-                       _with_rows(wb, n, _insert(rows, p, [{"type": kind}])), P_WRONG)
+                       _with_rows(wb, n, _insert(rows, p, [{"type": kind}])), P_BLOCK_LOOSE if closes else P_WRONG)
 
 
 # ------------------------------------------------------------------ row level
@@ -315,6 +342,7 @@ def index_rows(wb):
 def _with_index_row(wb, name, i, **changes):
     w = wb_copy(wb)
     w["sheets"][name]["rows"][i].update(changes)
+    _fit_headers(w["sheets"][name])
     return w
 
 
@@ -559,8 +587,8 @@ def no_content_index(wb, a):
 
 # class name -> (generator, model fault kinds it may map to, listed in the property statement?)
 CLASSES = {
-    "unterminated block": (unterminated, {"unterminated", "wrongTerminator"}, True),
-    "mismatched block": (mismatched, {"wrongTerminator"}, True),
+    "unterminated block": (unterminated, {"unterminated", "wrongTerminator", "edgeFromUnknownRow"}, True),
+    "mismatched block": (mismatched, {"wrongTerminator", "unterminated", "edgeFromUnknownRow"}, True),
     "edge from unknown row": (edge_unknown_row, {"edgeFromUnknownRow"}, True),
     "loop without variable": (loop_without_variable, {"forWithoutVariable"}, True),
     "go_to wrong number of targets": (goto_arity, {"gotoArity"}, True),
